@@ -91,28 +91,100 @@ fn settings_for(merge: &str) -> DefaultSettings<f64> {
     s
 }
 
+/// the analysis itself (through ChordalInfo::new), panics caught; no watchdog
+fn analyse_raw(g2: &Graph, merge2: &str, pr: Present) -> Option<Result<vh::TreeView, usize>> {
+    guarded(|| {
+        let (a, b, cones) = problem_of(g2, pr);
+        let st = settings_for(merge2);
+        let mut v = vh::analyse_problem(&a, &b, &cones, &st);
+        if let Some(t) = v.pop() {
+            Ok(t)
+        } else {
+            // not decomposed: which exit?  run the analysis without the early exits
+            let n = g2.n;
+            let mut mask = vec![false; n * (n + 1) / 2];
+            for e in g2.edges.iter() { mask[tri_idx(e.0, e.1)] = true; }
+            for i in 0..n { mask[tri_idx(i, i)] = true; }
+            if mask.iter().all(|x| *x) { Err(0usize) } else { Err(vh::analyse_mask_direct(&mask, merge2).n_cliques) }
+        }
+    })
+}
+fn outcome_of(r: Option<Result<vh::TreeView, usize>>) -> Outcome {
+    match r { Some(Ok(t)) => Outcome::Decomposed(t), Some(Err(k)) => Outcome::Undecomposed(k), None => Outcome::Panicked }
+}
+
+/// All graphs with enumeration index in lo..hi on n vertices, three strategies each, computed by
+/// ONE persistent worker thread that the caller watches: if the worker stays on one graph longer
+/// than `timeout_ms` that graph is recorded as Hung (all strategies) and a fresh worker continues
+/// after it (the stuck thread is abandoned).
+fn run_range(n: usize, lo: u64, hi: u64, pr: Present, timeout_ms: u64) -> Vec<(u64, Vec<Outcome>)> {
+    use std::sync::atomic::{AtomicU64, Ordering};
+    use std::sync::{Arc, Mutex};
+    let results: Arc<Mutex<Vec<(u64, u64, Vec<Outcome>)>>> = Arc::new(Mutex::new(vec![])); // (generation, bits, outcomes)
+    let mut out: Vec<(u64, Vec<Outcome>)> = vec![];
+    let mut start = lo;
+    let mut generation = 0u64;
+    let t_origin = std::time::Instant::now();
+    while start < hi {
+        generation += 1;
+        let cur = Arc::new(AtomicU64::new(start));
+        let since = Arc::new(AtomicU64::new(t_origin.elapsed().as_millis() as u64));
+        let done = Arc::new(AtomicU64::new(0));
+        let (cur2, since2, done2, res2) = (cur.clone(), since.clone(), done.clone(), results.clone());
+        let gen = generation;
+        let spawn = std::thread::Builder::new().stack_size(32 << 20).spawn(move || {
+            for bits in start..hi {
+                cur2.store(bits, Ordering::SeqCst);
+                since2.store(t_origin.elapsed().as_millis() as u64, Ordering::SeqCst);
+                let g = graph_of_bits(n, bits);
+                let o: Vec<Outcome> = MERGES.iter().map(|m| outcome_of(analyse_raw(&g, m, pr))).collect();
+                res2.lock().unwrap().push((gen, bits, o));
+            }
+            done2.store(1, Ordering::SeqCst);
+        });
+        if spawn.is_err() { std::thread::sleep(Duration::from_millis(200)); generation -= 1; continue; }
+        loop {
+            std::thread::sleep(Duration::from_millis(if hi - lo < 64 { 1 } else { 20 }));
+            if done.load(Ordering::SeqCst) == 1 { start = hi; break; }
+            let now = t_origin.elapsed().as_millis() as u64;
+            if now.saturating_sub(since.load(Ordering::SeqCst)) > timeout_ms {
+                let stuck = cur.load(Ordering::SeqCst);
+                // double-check that the worker has not moved on meanwhile
+                if now.saturating_sub(since.load(Ordering::SeqCst)) > timeout_ms && cur.load(Ordering::SeqCst) == stuck {
+                    let mut r = results.lock().unwrap();
+                    r.push((generation, stuck, vec![Outcome::Hung, Outcome::Hung, Outcome::Hung]));
+                    drop(r);
+                    start = stuck + 1;
+                    break;
+                }
+            }
+        }
+        let mut r = results.lock().unwrap();
+        let mut seen = std::collections::BTreeSet::new();
+        for (gn, bits, o) in r.drain(..) { if gn == generation && seen.insert(bits) { out.push((bits, o)); } }
+    }
+    out.sort_by_key(|e| e.0);
+    out
+}
+
 fn analyse(g: &Graph, merge: &str, pr: Present, timeout_ms: u64) -> Outcome {
     let (tx, rx) = mpsc::channel();
-    let g2 = g.clone();
-    let merge2 = merge.to_string();
-    std::thread::Builder::new().stack_size(64 << 20).spawn(move || {
-        let r = guarded(|| {
-            let (a, b, cones) = problem_of(&g2, pr);
-            let st = settings_for(&merge2);
-            let mut v = vh::analyse_problem(&a, &b, &cones, &st);
-            if let Some(t) = v.pop() {
-                Ok(t)
-            } else {
-                // not decomposed: which exit?  run the analysis without the early exits
-                let n = g2.n;
-                let mut mask = vec![false; n * (n + 1) / 2];
-                for e in g2.edges.iter() { mask[tri_idx(e.0, e.1)] = true; }
-                for i in 0..n { mask[tri_idx(i, i)] = true; }
-                if mask.iter().all(|x| *x) { Err(0usize) } else { Err(vh::analyse_mask_direct(&mask, &merge2).n_cliques) }
-            }
+    let mut tries = 0;
+    loop {
+        let g2 = g.clone();
+        let merge2 = merge.to_string();
+        let tx2 = tx.clone();
+        let stack = if g.n <= 64 { 1usize << 20 } else { 32usize << 20 };
+        let r = std::thread::Builder::new().stack_size(stack).spawn(move || {
+            let r = analyse_raw(&g2, &merge2, pr);
+            let _ = tx2.send(r);
         });
-        let _ = tx.send(r);
-    }).unwrap();
+        // the OS may refuse a new thread under load: wait and retry (never a verdict)
+        if r.is_ok() { break; }
+        tries += 1;
+        if tries > 600 { eprintln!("cannot spawn worker thread"); std::process::exit(3); }
+        std::thread::sleep(Duration::from_millis(100));
+    }
     match rx.recv_timeout(Duration::from_millis(timeout_ms)) {
         Ok(Some(Ok(t))) => Outcome::Decomposed(t),
         Ok(Some(Err(k))) => Outcome::Undecomposed(k),
@@ -151,12 +223,15 @@ impl Stats {
 
 /// one case = one graph under the listed strategies (max of the per-strategy codes)
 fn emit(sink: &mut CaseSink, st: &mut Stats, fam: &str, g: &Graph, merges: &[&str], pr: Present, timeout_ms: u64) {
+    let outs: Vec<Outcome> = merges.iter().map(|m| analyse(g, m, pr, timeout_ms)).collect();
+    emit_with(sink, st, fam, g, merges, pr, &outs);
+}
+fn emit_with(sink: &mut CaseSink, st: &mut Stats, fam: &str, g: &Graph, merges: &[&str], pr: Present, outs: &[Outcome]) {
     let mut parts = vec![];
-    for m in merges {
-        let o = analyse(g, m, pr, timeout_ms);
-        st.bump(&format!("{}:{}", m, outcome_tag(&o)));
-        if let Outcome::Decomposed(t) = &o { st.max_cliques = st.max_cliques.max(t.n_cliques); }
-        parts.push(format!("c17_case_po p {}", outcome_coq(&o)));
+    for (m, o) in merges.iter().zip(outs.iter()) {
+        st.bump(&format!("{}:{}", m, outcome_tag(o)));
+        if let Outcome::Decomposed(t) = o { st.max_cliques = st.max_cliques.max(t.n_cliques); }
+        parts.push(format!("c17_case_po p {}", outcome_coq(o)));
     }
     st.bump(&format!("family:{}", fam));
     st.max_n = st.max_n.max(g.n);
@@ -166,6 +241,40 @@ fn emit(sink: &mut CaseSink, st: &mut Stats, fam: &str, g: &Graph, merges: &[&st
     inp["diag"] = json!(pr.diag);
     inp["in_b"] = json!(pr.in_b);
     sink.case("tree", inp, coq, &[fam]);
+}
+/// all labelled graphs on n vertices, analysed by `workers` threads (each call still under its
+/// own watchdog), emitted in enumeration order
+fn emit_exhaustive(sink: &mut CaseSink, st: &mut Stats, n: usize, pr: Present, workers: usize) {
+    let fam = format!("exhaustive{}", n);
+    let total: u64 = 1u64 << (n * (n - 1) / 2);
+    let w = (workers as u64).min(total).max(1);
+    let mut results: Vec<Vec<(u64, Vec<Outcome>)>> = vec![];
+    std::thread::scope(|sc| {
+        let hs: Vec<_> = (0..w).map(|k| sc.spawn(move || run_range(n, total * k / w, total * (k + 1) / w, pr, 10000))).collect();
+        for h in hs { results.push(h.join().expect("worker")); }
+    });
+    for chunk in results.iter() { for (bits, o) in chunk.iter() { emit_with(sink, st, &fam, &graph_of_bits(n, *bits), &MERGES, pr, o); } }
+}
+
+/// model validation of reorder_snode_consecutively (information only)
+fn emit_reorder(sink: &mut CaseSink, st: &mut Stats, g: &Graph) {
+    let n = g.n;
+    let mut mask = vec![false; n * (n + 1) / 2];
+    for e in g.edges.iter() { mask[tri_idx(e.0, e.1)] = true; }
+    for i in 0..n { mask[tri_idx(i, i)] = true; }
+    if mask.iter().all(|x| *x) { return; }
+    let mut parts = vec![];
+    for m in MERGES.iter() {
+        if let Some((a, b)) = guarded(|| vh::reorder_trace(&mask, m)) {
+            if a.n_cliques < 2 { continue; }
+            parts.push(format!("c17_reorder {} {} {} {} {} {} {}", cnn(&a.snode), cnn(&a.separators), cnlist(&a.snode_post), cnlist(&a.ordering), cnn(&b.snode), cnn(&b.separators), cnlist(&b.ordering)));
+        }
+    }
+    if parts.is_empty() { return; }
+    st.bump("reorder_model_cases");
+    let mut inp = g.json();
+    inp["reorder"] = json!(true);
+    sink.case("reorder", inp, format!("(maxl [{}])", parts.join("; ")), &["reorder"]);
 }
 
 // ------------------------------------------------------------------ generators
@@ -298,6 +407,59 @@ fn dsu_one(sink: &mut CaseSink, st: &mut Stats, n: usize, ops: Vec<(usize, usize
     }
 }
 
+// ------------------------------------------------------------------ compact stream for the extracted checker
+fn compact_outcome(o: &Outcome, out: &mut String) {
+    use std::fmt::Write as _;
+    let nl = |v: &[usize], out: &mut String| { let _ = write!(out, " {}", v.len()); for x in v { let _ = write!(out, " {}", x); } };
+    match o {
+        Outcome::Decomposed(t) => {
+            out.push_str(" 0");
+            let _ = write!(out, " {}", t.snode.len()); for l in t.snode.iter() { nl(l, out); }
+            let _ = write!(out, " {}", t.separators.len()); for l in t.separators.iter() { nl(l, out); }
+            let _ = write!(out, " {}", t.parent.len());
+            for &p in t.parent.iter() { if p == vh::NO_PARENT_V { out.push_str(" -1"); } else if p == vh::INACTIVE_NODE_V { out.push_str(" -2"); } else { let _ = write!(out, " {}", p); } }
+            nl(&t.snode_post, out);
+            nl(&t.nblk.clone().unwrap_or_default(), out);
+            nl(&t.ordering, out);
+            let _ = write!(out, " {}", t.n_cliques);
+        }
+        Outcome::Undecomposed(k) => { let _ = write!(out, " 1 {}", k); }
+        Outcome::Panicked => out.push_str(" 2"),
+        Outcome::Hung => out.push_str(" 3"),
+    }
+}
+fn graph_of_bits(n: usize, bits: u64) -> Graph {
+    let pairs: Vec<(usize, usize)> = (0..n).flat_map(|j| (0..j).map(move |i| (i, j))).collect();
+    let mut e: Vec<(usize, usize)> = (0..pairs.len()).filter(|b| bits >> b & 1 == 1).map(|b| pairs[b]).collect();
+    e.sort();
+    Graph { n, edges: e }
+}
+/// every labelled graph on n vertices whose enumeration index is = shard (mod nshards), one line
+/// each: bits n #edges (i j)* then the three strategy outcomes
+fn exhaustive_stream(n: usize, shard: u64, nshards: u64, path: &str) {
+    use std::io::Write as _;
+    let f: Box<dyn std::io::Write> = if path == "/dev/stdout" || path == "-" { Box::new(std::io::stdout()) } else { Box::new(std::fs::File::create(path).expect("cannot create output")) };
+    let mut w = std::io::BufWriter::with_capacity(1 << 20, f);
+    let npairs = n * (n - 1) / 2;
+    let std_pr = Present { diag: true, in_b: false };
+    // shard = contiguous slice of the enumeration
+    let total = 1u64 << npairs;
+    let (lo, hi) = (total * shard / nshards, total * (shard + 1) / nshards);
+    let mut c0 = lo;
+    while c0 < hi {
+        let c1 = (c0 + 4096).min(hi);
+        for (bits, outs) in run_range(n, c0, c1, std_pr, 10000) {
+            let g = graph_of_bits(n, bits);
+            let mut line = format!("{} {} {}", bits, n, g.edges.len());
+            for e in g.edges.iter() { line.push_str(&format!(" {} {}", e.0, e.1)); }
+            for o in outs.iter() { compact_outcome(o, &mut line); }
+            writeln!(w, "{}", line).unwrap();
+        }
+        c0 = c1;
+    }
+    w.flush().unwrap();
+}
+
 // ------------------------------------------------------------------ search mode (F5 end-to-end)
 /// quick native plausibility test of a tree (NOT used for verdicts; only to look for patterns
 /// on which the clique-graph strategy misbehaves)
@@ -327,6 +489,7 @@ fn main() {
     let mut tier = String::from("quick");
     let mut replay: Option<String> = None;
     let mut search: usize = 0;
+    let mut exn: Option<(usize, u64, u64)> = None;
     let mut i = 1;
     while i < args.len() {
         match args[i].as_str() {
@@ -335,11 +498,13 @@ fn main() {
             "--tier" => { tier = args[i + 1].clone(); i += 1; }
             "--replay" => { replay = Some(args[i + 1].clone()); i += 1; }
             "--search" => { search = args[i + 1].parse().unwrap_or(0); i += 1; }
+            "--exn" => { exn = Some((args[i + 1].parse().unwrap(), args[i + 2].parse().unwrap(), args[i + 3].parse().unwrap())); i += 3; }
             _ => {}
         }
         i += 1;
     }
     silence_panics();
+    if let Some((n, shard, nshards)) = exn { exhaustive_stream(n, shard, nshards, &out); return; }
     let thorough = tier == "thorough";
     let mut sink = CaseSink::new(&out);
     let mut st = Stats { by: BTreeMap::new(), max_cliques: 0, max_n: 0 };
@@ -379,7 +544,13 @@ fn main() {
                 dsu_one(&mut sink, &mut st, n, ops);
                 continue;
             }
+            if inp.get("edges").is_none() && inp.get("bits").is_some() {
+                let g = graph_of_bits(inp["n"].as_u64().unwrap() as usize, inp["bits"].as_u64().unwrap());
+                emit(&mut sink, &mut st, "replay", &g, &MERGES, std_pr, 20000);
+                continue;
+            }
             if inp.get("edges").is_none() { continue; }
+            if inp.get("reorder").and_then(|b| b.as_bool()).unwrap_or(false) { emit_reorder(&mut sink, &mut st, &Graph::from_json(inp)); continue; }
             let g = Graph::from_json(inp);
             let merges: Vec<String> = inp.get("merges").and_then(|m| m.as_array()).map(|a| a.iter().map(|x| x.as_str().unwrap().to_string()).collect()).unwrap_or_else(|| MERGES.iter().map(|s| s.to_string()).collect());
             let mr: Vec<&str> = merges.iter().map(|s| s.as_str()).collect();
@@ -388,19 +559,7 @@ fn main() {
         }
     } else {
         // 1. exhaustive: every labelled graph on n vertices
-        for n in 1..=6 {
-            let fam = format!("exhaustive{}", n);
-            all_graphs(n, &mut |g| emit(&mut sink, &mut st, &fam, &g, &MERGES, std_pr, 10000));
-        }
-        if thorough {
-            // 7 vertices: a seeded 1/16 sample of the 2^21 labelled graphs (the full enumeration is
-            // out of reach for coqc-evaluated cases; see design.d/C17.md)
-            let pick = seed % 16;
-            all_graphs(7, &mut |g| {
-                let mut h = Rng::new(g.edges.iter().fold(0x51u64, |a, e| a.wrapping_mul(31).wrapping_add((e.0 * 7 + e.1) as u64 + 1)));
-                if h.next() % 16 == pick { emit(&mut sink, &mut st, "sampled7", &g, &MERGES, std_pr, 10000); }
-            });
-        }
+        for n in 1..=6 { emit_exhaustive(&mut sink, &mut st, n, std_pr, 8); }
         // 2. presentation variants on small graphs: diagonal absent from the data, entries split between A and b
         for k in 0..(if thorough { 600 } else { 150 }) {
             let (nn, dd) = (3 + rng.below(6), 2 + rng.below(3)); let g = erdos(&mut rng, nn, 1, dd);
@@ -412,6 +571,7 @@ fn main() {
             let big = (k / 12) % 16 == 15;
             let (fam, g) = random_family(&mut rng, k, big);
             emit(&mut sink, &mut st, &fam, &g, &MERGES, std_pr, 15000);
+            if g.n <= 60 { emit_reorder(&mut sink, &mut st, &g); }
         }
         // 4. DisjointSetUnion
         dsu_cases(&mut sink, &mut st, &mut rng, if thorough { 400 } else { 120 });
